@@ -328,7 +328,7 @@ def c03(payload):
             spec = case['spec']       # generated with ground='ideal'
             for w in spec['wires']: w['tag'] = None
             m0 = gen.build(dict(spec, sources=[], loads=[]))
-            if any(w['type'] != 'wire' or w.get('taper') for w in spec['wires']):
+            if any(w['type'] != 'wire' for w in spec['wires']):
                 r['skipped'] = True; out.append(r); continue
             n = len(m0.pulses)
             gnd = [i for i, p in enumerate(m0.pulses) if p.ground.any()]
@@ -354,6 +354,21 @@ def c03(payload):
             for g in G.geo:
                 p1 = [float(x) for x in g.endpoints[0]]; p2 = [float(x) for x in g.endpoints[1]]
                 vertical = abs(p1[0] - p2[0]) + abs(p1[1] - p2[1]) == 0
+                tp = [g.segtype, g.taper_min, g.taper_max] if getattr(g, 'segtype', 0) else None
+                if tp:
+                    # a tapered wire keeps its segmentation; its image is the mirrored wire (described in the opposite direction
+                    # for a grounded wire, so that the ground point joins the two: the taper kind 1 <-> 2 goes with the direction)
+                    sw = [{1: 2, 2: 1, 3: 3}[tp[0]], tp[1], tp[2]]
+                    if g.is_ground[0]:
+                        wires.append(gen.wire(g.n_segments, [p2[0], p2[1], -p2[2]], p1, g.r_orig, taper=sw))
+                        wires.append(gen.wire(g.n_segments, p1, p2, g.r_orig, taper=tp))
+                    elif g.is_ground[1]:
+                        wires.append(gen.wire(g.n_segments, p1, p2, g.r_orig, taper=tp))
+                        wires.append(gen.wire(g.n_segments, p2, [p1[0], p1[1], -p1[2]], g.r_orig, taper=sw))
+                    else:
+                        wires.append(gen.wire(g.n_segments, p1, p2, g.r_orig, taper=tp))
+                        wires.append(gen.wire(g.n_segments, [p1[0], p1[1], -p1[2]], [p2[0], p2[1], -p2[2]], g.r_orig, taper=tp))
+                    continue
                 if g.is_ground[0] and vertical:
                     wires.append(gen.wire(2 * g.n_segments, [p2[0], p2[1], -p2[2]], p2, g.r_orig))     # image .. real, centre = ground point
                 elif g.is_ground[1] and vertical:
@@ -511,7 +526,12 @@ def c02(payload):
             rng = random.Random(case['seed'])
             spec = case['spec']
             r['spec'] = spec
-            m = gen.build(dict(spec, sources=[], loads=[]))
+            pre = spec['pre_factor'] if 'pre_factor' in spec else rng.choice([None, None, 0.02, 50.0, 0.5, 2.0])
+            if pre is None:
+                m = gen.build(dict(spec, sources=[], loads=[]))
+            else:
+                # the object has filled a matrix at another frequency before (a sweep step)
+                m = gen.build(dict(spec, sources=[], loads=[], f=spec['f'] * pre)); m.compute_impedance_matrix(); m.f = spec['f']
             m.compute_impedance_matrix()
             Z = np.array(m.Z)
             k0 = 2 * math.pi / (299.8 / m.f); srm = 1e-4 * 299.8 / m.f
